@@ -152,7 +152,12 @@ fn issue<S: Serialize + Clone>(sel: &S) -> Result<Option<String>, String> {
     match catch_quiet(|| ResultsPage::new(vec![0u8], &(), |_: &u8, _: &()| sel.clone())) {
         Err(p) => Err(format!("issuing panicked: {}", p)),
         Ok(Err(_)) => Ok(None), // refused to issue: allowed, nothing was issued
-        Ok(Ok(page)) => Ok(Some(page.next_page.expect("non-empty page has a token"))),
+        Ok(Ok(page)) => match page.next_page {
+            Some(t) => Ok(Some(t)),
+            // a non-empty page without a token: nothing was issued, so there is nothing for this
+            // property to judge (that a non-empty page carries a token is C15's statement)
+            None => Ok(None),
+        },
     }
 }
 
